@@ -169,6 +169,8 @@ impl ViCmd {
 			matches!(m.1,
 				Motion::LineUp |
 				Motion::LineDown |
+				Motion::ScreenLineUp |
+				Motion::ScreenLineDown |
 				Motion::LineUpCharwise |
 				Motion::LineDownCharwise
 			)
@@ -179,9 +181,12 @@ impl ViCmd {
 		if self.is_line_motion() && self.verb.is_none() {
 			if let Some(motion) = self.motion.as_mut() {
 				match motion.1 {
+					// There are no screen lines here: gk and gj move like k and j
+					Motion::ScreenLineUp |
 					Motion::LineUp => motion.1 = Motion::LineUpCharwise,
+					Motion::ScreenLineDown |
 					Motion::LineDown => motion.1 = Motion::LineDownCharwise,
-					_ => unreachable!()
+					_ => { /* Already charwise */ }
 				}
 			}
 		}
